@@ -1,6 +1,8 @@
 """C12 - subscribers hear about every change, and only about changes (DESIGN §6 C12)."""
 from __future__ import annotations
 
+import asyncio
+
 import copy
 import itertools
 
@@ -47,7 +49,15 @@ class Harness:
         self.last_inst = (self.w.inst["update"], list(self.w.inst["versions"]))
 
     def _make(self, name, i, order):
+        # '-susp1' / '-susp2': the odd / the other subscribers are slow - they yield to the loop twice before they
+        # take note of the call, so a sibling that raises (or finishes) meanwhile must not take them down with it
+        slow = (order.endswith("-susp1") and name in ("A1", "G1", "S1", "Z1")) or \
+               (order.endswith("-susp2") and name not in ("A1", "G1", "S1", "Z1"))
+
         async def sub(ident):
+            if slow:
+                await asyncio.sleep(0)
+                await asyncio.sleep(0)
             self.calls[name].append(ident)
             if name in self.oneshot:
                 # a one-shot subscriber: removes itself (and registers a late-comer) from inside its callback
@@ -59,7 +69,7 @@ class Harness:
                 raise RuntimeError(f"subscriber {name} fails")
         # canonical as_completed order sorts by qualname: 'order' decides whether raising subscribers
         # (odd numbered twins) run before or after their siblings
-        prefix = f"{i:02d}" if order == "fwd" else f"{99 - i:02d}"
+        prefix = f"{i:02d}" if order.startswith("fwd") else f"{99 - i:02d}"
         sub.__qualname__ = f"c12.sub.{prefix}.{name}"
         return sub
 
@@ -239,7 +249,7 @@ def run(tier, seed, part=None):
     outcomes = set()
     for gen in (4, 5):
         seqs = [s for d in range(1, depth + 1) for s in itertools.product(range(len(EVENTS)), repeat=d)]
-        jobs = [(gen, order, s) for order in ("fwd", "rev") for s in seqs]
+        jobs = [(gen, order, s) for order in ("fwd", "rev", "fwd-susp2", "rev-susp1") for s in seqs]
         res = explorer.pool().map(run_history, jobs, chunksize=32)
         for job, (sig, msg) in zip(jobs, res):
             n += len(job[2])
